@@ -25,7 +25,7 @@ ASSUMPTIONS = [
 COMPONENTS = {'real': ['yldprolog.engine query/load_script_from_string/load_script_from_file/register_function/chain_functions/assert_fact/clear', 'compiler output for the snippets'],
               'stub': ['file system seen by load_script_from_file (in-memory fake open, injects I/O errors)', 'native predicates (tagged answers)'],
               'oracle': ['definition-table model: per name/arity facts first, then the chain of definitions registered for exactly that arity, variadic only if none, each definition with its own cut']}
-REQUIRED_PROBES = ('op_regfail', 'suspended_call_resumed_after_change', 'op_load_overwrite', 'op_load_append', 'op_loadfail_syntax', 'op_loadfail_raise', 'op_loadfail_io', 'op_reg_inferred', 'op_reg_explicit',
+REQUIRED_PROBES = ('op_reg_partial', 'op_reg_bound-method', 'op_reg_callable-object', 'op_regfail', 'suspended_call_resumed_after_change', 'op_load_overwrite', 'op_load_append', 'op_loadfail_syntax', 'op_loadfail_raise', 'op_loadfail_io', 'op_reg_inferred', 'op_reg_explicit',
                    'op_reg_variadic', 'op_assert', 'op_clear', 'chain_of_2plus_definitions', 'variadic_used', 'variadic_shadowed_by_exact', 'reserved_name_registered',
                    'load_via_file')
 
@@ -47,11 +47,13 @@ SNIPPETS = [
     ("is_a(s9a).\nis_a(s9b) :- !.\nis_a(s9c).\nmy_long_name(s9x,s9y).\n", {('is_a', 1): ['rows', [['s9a'], ['s9b'], ['s9c']], 1], ('my_long_name', 2): ['rows', [['s9x', 's9y']], None]}),
     ("is_a(s10a).\nmain(X) :- is_a(X).\n", {('is_a', 1): ['rows', [['s10a']], None], ('main', 1): ['call', 'is_a', 1]}),
     # predicates whose *names* equal the internal keys of other predicates (p/1 is stored as 'p_1', q/2 as 'q_2')
+    # a directly recursive predicate: the inner call rp(s12a) is a call like any other (facts first, every definition of rp/1)
+    ("rp(s12a).\nrp(X) :- X = s12b, rp(s12a).\n", {('rp', 1): ['selfrec', 's12a', 's12b']}),
     ("p_1.\np_1(s11a).\nq_2(s11b).\n", {('p_1', 0): ['rows', [[]], None], ('p_1', 1): ['rows', [['s11a']], None], ('q_2', 1): ['rows', [['s11b']], None]}),
 ]
-NAMES = [('p_1', 0), ('p_1', 1), ('q_2', 1), ('is_a', 1), ('is_a', 2), ('my_long_name', 2), ('p', 0), ('p', 1), ('p', 2), ('p', 3), ('q', 2), ('r', 1), ('main', 1), ('sub', 1), ('zz', 1), ('q', 1), ('atom', 1), ('query', 2), ('unify', 2), ('sub', 0)]
-REG_TARGETS = [('p_1', 0), ('q_2', 1), ('is_a', 1), ('is_a', 1), ('my_long_name', 2), ('p', 1), ('p', 2), ('sub', 1), ('zz', 1), ('p', 0), ('r', 1), ('atom', 1), ('unify', 2), ('q', 2), ('p', 3)]
-ASSERT_TARGETS = [('is_a', 1), ('p', 1), ('p', 2), ('sub', 1), ('p', 0), ('r', 1), ('q', 2), ('atom', 1), ('p', 3), ('main', 1)]
+NAMES = [('rp', 1), ('p_1', 0), ('p_1', 1), ('q_2', 1), ('is_a', 1), ('is_a', 2), ('my_long_name', 2), ('p', 0), ('p', 1), ('p', 2), ('p', 3), ('q', 2), ('r', 1), ('main', 1), ('sub', 1), ('zz', 1), ('q', 1), ('atom', 1), ('query', 2), ('unify', 2), ('sub', 0)]
+REG_TARGETS = [('rp', 1), ('p_1', 0), ('q_2', 1), ('is_a', 1), ('is_a', 1), ('my_long_name', 2), ('p', 1), ('p', 2), ('sub', 1), ('zz', 1), ('p', 0), ('r', 1), ('atom', 1), ('unify', 2), ('q', 2), ('p', 3)]
+ASSERT_TARGETS = [('rp', 1), ('is_a', 1), ('p', 1), ('p', 2), ('sub', 1), ('p', 0), ('r', 1), ('q', 2), ('atom', 1), ('p', 3), ('main', 1)]
 RESERVED = {'variable', 'atom', 'functor', 'functor1', 'functor2', 'functor3', 'listpair', 'makelist', 'ATOM_NIL', 'unify', 'match_dynamic', 'query', 'True', 'False', '__builtins__'}
 _CODE = None
 READ_CAP = 300       # answers compared per read-back (engine and model truncated alike)
@@ -63,6 +65,53 @@ def prewarm():
         from yldprolog.compiler import compile_prolog_from_string
         with contextlib.redirect_stderr(io.StringIO()):
             _CODE = [compile_prolog_from_string(src) for src, _ in SNIPPETS]
+
+
+def types_method(f):
+    """f as a bound method of a throw-away object"""
+    import types
+
+    class Holder:
+        pass
+    return types.MethodType(lambda self, *a: f(*a), Holder()) if False else _bound(f)
+
+
+def _bound(f):
+    import inspect
+    n = len(inspect.signature(f).parameters)
+
+    class Holder:
+        def m0(self):
+            return f()
+
+        def m1(self, a):
+            return f(a)
+
+        def m2(self, a, b):
+            return f(a, b)
+
+        def m3(self, a, b, c):
+            return f(a, b, c)
+    return getattr(Holder(), 'm%d' % n)
+
+
+def callable_object(f, ar):
+    class C0:
+        def __call__(self):
+            return f()
+
+    class C1:
+        def __call__(self, a):
+            return f(a)
+
+    class C2:
+        def __call__(self, a, b):
+            return f(a, b)
+
+    class C3:
+        def __call__(self, a, b, c):
+            return f(a, b, c)
+    return [C0, C1, C2, C3][ar]()
 
 
 def gen(seed, tier):
@@ -93,7 +142,7 @@ def gen(seed, tier):
             ops.append(['loadfail', rng.randrange(len(SNIPPETS)), kind, rng.random() < 0.5, rng.randrange(0, 4)])
         elif k < 0.72:
             name, ar = rng.choice(REG_TARGETS)
-            ops.append(['reg', name, ar, rng.choice(['inferred', 'explicit', 'variadic']), rng.random() < 0.5])
+            ops.append(['reg', name, ar, rng.choice(['inferred', 'explicit', 'variadic']), rng.random() < 0.5, rng.choice(['function', 'function', 'partial', 'bound-method', 'callable-object'])])
         elif k < 0.86:
             name, ar = rng.choice(ASSERT_TARGETS)
             ops.append(['assert', name, ar, rng.random() < 0.3])
@@ -116,7 +165,7 @@ def show_op(op):
     if op[0] == 'loadfail':
         return 'failing load (%s, k=%d) of snippet%d overwrite=%s' % (op[2], op[4], op[1], op[3])
     if op[0] == 'reg':
-        return 'register_function %s/%d %s yields %s' % (op[1], op[2], op[3], op[4])
+        return 'register_function %s/%d %s yields %s%s' % (op[1], op[2], op[3], op[4], '' if len(op) < 6 or op[5] == 'function' else ' as a ' + op[5])
     if op[0] == 'assert':
         return 'assert_fact %s/%d %s' % (op[1], op[2], 'front' if op[3] else 'back')
     if op[0] == 'qstart':
@@ -156,12 +205,37 @@ class Model:
             return [x + y for x in self.answers(tuple(d[1]), depth + 1) for y in self.answers(tuple(d[2]), depth + 1)]
         if kind == 'py':
             return [[d[1]] + [None] * (key[1] - 1)] if key[1] >= 1 else [[]]
+        if kind == 'selfrec':
+            # a(first). a(X) :- X = second, a(first).   the inner call has as many solutions as a/1 has answers equal to `first`
+            return [[d[1]]] + [[d[2]]] * self.count_equal(key, d[1], depth + 1)
         raise ValueError(d)
+
+    def count_equal(self, key, value, depth):
+        """number of answers of the call key(value) with a ground first argument"""
+        if depth > 8:
+            raise RecursionError
+        n = sum(1 for r in self.facts.get(key, []) if r and r[0] == value)
+        if key[0] in RESERVED:
+            return n
+        ds = self.defs.get(key) or self.var.get(key[0]) or []
+        for d in ds:
+            if d[0] == 'rows':
+                rows = d[1] if d[2] is None else d[1][:d[2] + 1]
+                n += sum(1 for r in rows if r and r[0] == value)
+            elif d[0] == 'selfrec':
+                n += 1 if d[1] == value else (self.count_equal(key, d[1], depth + 1) if d[2] == value else 0)
+            elif d[0] == 'py':
+                n += 1 if d[1] == value else 0
+            elif d[0] == 'call':
+                n += self.count_equal((d[1], d[2]), value, depth + 1)
+            else:
+                n += sum(1 for r in self.def_answers(d, key, depth + 1) if r and r[0] == value)
+        return n
 
     def flat(self, key):
         """True if the answers of key do not depend on calls made later during the enumeration"""
         ds = self.defs.get(key) or (self.var.get(key[0]) or [] if key[0] not in RESERVED else [])
-        return all(d[0] in ('rows', 'py') for d in ds)
+        return all(d[0] in ('rows', 'py') for d in ds)          # (selfrec makes an inner call: not flat)
 
     def answers(self, key, depth=0):
         if depth > 8:
@@ -301,7 +375,8 @@ def execute(plan):
                 if before != ([], [], []):
                     log.key(('loadfail', fkind, before))
             elif kind == 'reg':
-                _, name, ar, style, yv = op
+                _, name, ar, style, yv = op[:5]
+                ckind = op[5] if len(op) > 5 else 'function'
                 counter[0] += 1
                 tag = 'py%d' % counter[0]
                 impl = native(tag, yv)
@@ -313,6 +388,16 @@ def execute(plan):
                     m.var[name] = [['py', tag]]
                 else:
                     f = {0: (lambda i: (lambda: i()))(impl), 1: (lambda i: (lambda a: i(a)))(impl), 2: (lambda i: (lambda a, b: i(a, b)))(impl), 3: (lambda i: (lambda a, b, c: i(a, b, c)))(impl)}[ar]
+                    if ckind != 'function':
+                        # the same predicate as another kind of callable (its arity can still be inferred)
+                        import functools
+                        log.count('op_reg_' + ckind)
+                        if ckind == 'partial':
+                            f = functools.partial(f)
+                        elif ckind == 'bound-method':
+                            f = types_method(f)
+                        else:
+                            f = callable_object(f, ar)
                     yp.register_function(name, f, arity=None if style == 'inferred' else ar)
                     m.defs[(name, ar)] = [['py', tag]]
             elif kind == 'regfail':
